@@ -469,13 +469,13 @@ func (o *ocfg) zoneExcludedLabels(qname string, qlabels [][]byte) bool {
 		return o.zoneExcluded(qname)
 	}
 	for _, z := range o.zones {
-		zl := strings.Split(z, ".")
+		zl := zoneTextLabels(z)
 		if z == "" || len(zl) > len(qlabels) {
 			continue
 		}
 		ok := true
 		for i := 1; i <= len(zl); i++ {
-			if zl[len(zl)-i] != strings.ToLower(string(qlabels[len(qlabels)-i])) {
+			if strings.ToLower(zl[len(zl)-i]) != strings.ToLower(string(qlabels[len(qlabels)-i])) {
 				ok = false
 				break
 			}
@@ -486,6 +486,32 @@ func (o *ocfg) zoneExcludedLabels(qname string, qlabels [][]byte) bool {
 	}
 	return false
 }
+
+// zoneTextLabels reads a zone written in presentation format (RFC 1035 section
+// 5.1): labels separated by unescaped dots, "\X" a literal character, "\DDD"
+// the byte with that decimal value.
+func zoneTextLabels(z string) []string {
+	var out []string
+	var cur []byte
+	for i := 0; i < len(z); i++ {
+		switch {
+		case z[i] == '\\' && i+3 < len(z) && isDigit(z[i+1]) && isDigit(z[i+2]) && isDigit(z[i+3]):
+			cur = append(cur, (z[i+1]-'0')*100+(z[i+2]-'0')*10+(z[i+3]-'0'))
+			i += 3
+		case z[i] == '\\' && i+1 < len(z):
+			cur = append(cur, z[i+1])
+			i++
+		case z[i] == '.':
+			out = append(out, string(cur))
+			cur = nil
+		default:
+			cur = append(cur, z[i])
+		}
+	}
+	return append(out, string(cur))
+}
+
+func isDigit(b byte) bool { return b >= '0' && b <= '9' }
 
 // mustSynthesise: every gate of the property statement is open, the AAAA
 // reply is one DNS64 does not pass through, and the error-free NOERROR A
@@ -1157,6 +1183,12 @@ func execServe(f []string) vlib.Res {
 	}
 	if len(curO.exAAAA) == 0 {
 		tags += ",x6empty"
+	}
+	for _, z := range curO.zones {
+		if strings.Contains(z, "\\") {
+			tags += ",esczone"
+			break
+		}
 	}
 	return vlib.Res{Impl: impl, Oracle: or, Tags: tags}
 }
